@@ -65,13 +65,17 @@ def gen_world(rng):
     return {"subs": subs, "parents": parents}
 
 
-def gen_atom(rng, simple_only=False):
+COMPOUND = ["d_is_the_e", "e_le_sub_an", "exists_an", "d_in_conc_psubs", "forall_subs", "forall_items_an", "forall_subs_vs_d", "or", "not",
+            "dn_le_an_flat", "p_has_elem", "pred_default", "forall_over_query_with_forall", "forall_flat_free_parent", "pred_conc_arg",
+            "pred_conc_arg", "p_has_elem_gt_k", "forall_subs_pred", "forall_var_pred"]
+ATOM_KINDS = sorted(set(SIMPLE) | set(COMPOUND))       # every kind of interaction atom (for the pairwise enumeration)
+
+
+def gen_atom(rng, simple_only=False, kind=None):
     op = lambda: rng.choice(["<", "<=", ">", ">=", "!=", "=="])
     t = lambda: rng.randint(1, 6)
-    kinds = list(SIMPLE) if simple_only else list(SIMPLE) + ["d_is_the_e", "e_le_sub_an", "exists_an", "d_in_conc_psubs", "forall_subs",
-                                                             "forall_items_an", "forall_subs_vs_d", "or", "not", "dn_le_an_flat",
-                                                             "p_has_elem", "pred_default", "forall_over_query_with_forall", "forall_flat_free_parent", "pred_conc_arg", "pred_conc_arg", "p_has_elem_gt_k", "forall_subs_pred", "forall_var_pred"]
-    k = rng.choice(kinds)
+    kinds = list(SIMPLE) if simple_only else list(SIMPLE) + COMPOUND
+    k = kind if kind is not None else rng.choice(kinds)
     if k == "pk":
         return ["pk", op(), rng.randint(0, 4)]
     if k == "en":
@@ -109,14 +113,15 @@ def gen_atom(rng, simple_only=False):
     return [k]
 
 
-def gen_case(rng):
-    atoms = [gen_atom(rng) for _ in range(rng.randint(1, 3))]
+def gen_case(rng, atoms=None):
+    given = atoms is not None
+    atoms = [gen_atom(rng) for _ in range(rng.randint(1, 3))] if atoms is None else list(atoms)
     fv = [a for a in atoms if a[0] == "forall_var_pred"]
-    if len(fv) == 1 and rng.random() < 0.7:
+    if len(fv) == 1 and not given and rng.random() < 0.7:
         # the same function predicate over the same objects with another set of arguments, in the same query
         other = ["forall_var_pred", sorted(set(fv[0][1]) | set(rng.sample(range(6), 1))), rng.choice([s_ for s_ in (None, 1, 2, 4) if s_ != fv[0][2]])]
         atoms.insert(rng.randint(0, len(atoms)), other)
-    if any(a[0] == "forall_subs_pred" for a in atoms) and not any(a[0] == "pred_default" for a in atoms) and rng.random() < 0.7:
+    if not given and any(a[0] == "forall_subs_pred" for a in atoms) and not any(a[0] == "pred_default" for a in atoms) and rng.random() < 0.7:
         # the same function predicate also called on the element itself, with another set of arguments
         fa = next(a for a in atoms if a[0] == "forall_subs_pred")
         atoms.insert(rng.randint(0, len(atoms)), ["pred_default", rng.choice([k for k in (None, 1, 3, 5) if k != fa[1]])])
@@ -431,3 +436,8 @@ def gen_case_for(rng, check_id):
         if want is None or (tags(c) | {c["c1"][0]}) & want:
             return c
     return c
+
+
+def gen_pair_case(rng, k1, k2):
+    """an IX case whose atoms are exactly one atom of kind k1 followed by one of kind k2 (pairwise feature-interaction coverage)"""
+    return gen_case(rng, atoms=[gen_atom(rng, kind=k1), gen_atom(rng, kind=k2)])
